@@ -651,7 +651,7 @@ M['C05'] = [
         ('include/cstl/memory.h', '    cstl_unique_ptr_init(up);\n    return p;', '    free(p);\n    cstl_unique_ptr_init(up);\n    return p;')]),
     dict(id='c05-unique-swap-leaves-clr', kind='fault', rule='M3', edits=[
         ('include/cstl/memory.h', '    cstl_guarded_ptr_swap(&up1->gp, &up2->gp);\n    cstl_swap(&up1->clr, &up2->clr, t, sizeof(t));', '    cstl_guarded_ptr_swap(&up1->gp, &up2->gp);\n    (void)t;')]),
-    dict(id='c05-array-frees-directly', kind='fault', rule='M4', edits=[
+    dict(id='c05-array-frees-directly', kind='fault', rule=('M2', 'M4'), edits=[
         ('src/memory.c', 'bool cstl_shared_ptr_unique(const cstl_shared_ptr_t * const sp)\n{', 'static void drop_block(void * const p)\n{\n    free(p);\n}\n\nbool cstl_shared_ptr_unique(const cstl_shared_ptr_t * const sp)\n{'),
         ('src/memory.c', '    int count = 1;\n    if (data != NULL) {\n        count = atomic_load(&data->ref.soft);\n    }', '    int count = 1;\n    if (data != NULL) {\n        count = atomic_load(&data->ref.soft);\n        if (count == 0) {\n            drop_block((void *)data);\n        }\n    }')]),
     dict(id='c05-benign-reset-restructured', kind='benign', edits=[
